@@ -29,7 +29,7 @@ func c18parse(s string) {
 		skip()
 		return
 	}
-	impl := timeObs(iso8601.Parse(s))
+	impl := guarded(func() string { return timeObs(iso8601.Parse(s)) })
 	orc := timeObs(time.Parse(time.RFC3339Nano, s))
 	emit("parse", hexs([]byte(s)), impl, orc)
 }
@@ -74,9 +74,9 @@ func c18valid(s string, flags int) {
 		skip()
 		return
 	}
-	impl := iso8601.Valid(s, iso8601.ValidFlags(flags))
+	impl := guarded(func() string { return fmt.Sprint(iso8601.Valid(s, iso8601.ValidFlags(flags))) })
 	orc := validOracle(s, iso8601.ValidFlags(flags))
-	emit("valid", fmt.Sprintf("%s %d", hexs([]byte(s)), flags), fmt.Sprint(impl), fmt.Sprint(orc))
+	emit("valid", fmt.Sprintf("%s %d", hexs([]byte(s)), flags), impl, fmt.Sprint(orc))
 }
 
 var c18bases = []string{
